@@ -8,6 +8,7 @@ import (
 	"strconv"
 	"strings"
 	"sync"
+	"time"
 )
 
 // engineAbort terminates the current path; it is never visible to the
@@ -75,6 +76,7 @@ type Limits struct {
 	TimeoutMs    int // per solver query
 	SampleModels int // passing paths for which a model is extracted
 	Preempt      int // preemption budget K
+	TimeBudgetS  int // wall-clock budget for the whole exploration
 }
 
 // Explorer is shared by all workers of one harness run.
@@ -98,12 +100,14 @@ type Explorer struct {
 	Stubs     map[string]bool
 	stopped   bool
 	passModels int
+	start     time.Time
 }
 
 func NewExplorer(lim Limits) *Explorer {
 	ex := &Explorer{Lim: lim, Outcomes: map[string]int{}, Reach: map[string]int{}, Funcs: map[string]bool{}, Stubs: map[string]bool{}}
 	ex.cond = sync.NewCond(&ex.mu)
 	ex.work = [][]Decision{nil}
+	ex.start = time.Now()
 	return ex
 }
 
@@ -116,6 +120,11 @@ func (ex *Explorer) next() (prefix []Decision, ok bool) {
 			return nil, false
 		}
 		if n := len(ex.work); n > 0 {
+			if b := ex.Lim.TimeBudgetS; b > 0 && time.Since(ex.start) > time.Duration(b)*time.Second {
+				ex.note("time bound reached: " + strconv.Itoa(b) + " s, " + strconv.Itoa(ex.Paths) + " paths explored, " + strconv.Itoa(n) + " prefixes left unexplored")
+				ex.work = nil
+				continue
+			}
 			if ex.Lim.MaxPaths > 0 && ex.Paths+ex.inflight >= ex.Lim.MaxPaths {
 				ex.note("path bound reached: " + strconv.Itoa(ex.Lim.MaxPaths) + " paths explored, " + strconv.Itoa(n) + " prefixes left unexplored")
 				ex.work = nil
